@@ -141,6 +141,21 @@ func execDecode(o *out, f [][]int) []int {
 				o.fail("entry-points-disagree", fmt.Sprintf("101 %s %s %s variant=%d", fHex(data), fHex(extra), fNums(entry, prevlen), vi))
 			}
 		}
+		// one long-lived Message fed through Write with every input of the run, refused ones included: same
+		// verdict and content as a fresh Message
+		reusedDecodeMu.Lock()
+		{
+			var e error
+			p, _ := guarded(func() { _, e = reusedWrite101.Write(src) })
+			r := []int{b2i(e != nil), b2i(p)}
+			if e == nil && !p {
+				r = append(r, serDecoded(&reusedWrite101)...)
+			}
+			if fmt.Sprint(r) != fmt.Sprint(results[0]) || (e == nil && !p && !bytes.Equal(reusedWrite101.Raw, src)) {
+				o.fail("entry-points-disagree", fmt.Sprintf("101 %s %s %s variant=long-lived-Write", fHex(data), fHex(extra), fNums(entry, prevlen)))
+			}
+		}
+		reusedDecodeMu.Unlock()
 		// CloneTo from a source that WAS decoded and whose bytes were changed in place afterwards (its struct is
 		// stale): the clone is the decode of the source's bytes as they are now
 		if err == nil && !pan && len(data) >= 24 {
@@ -191,42 +206,63 @@ func execDecode(o *out, f [][]int) []int {
 // execSpecDecode: the library's Decode projected onto what the RFC parse defines.
 func execSpecDecode(o *out, f [][]int) []int {
 	data := bytesOf(f[0])
+	project := func(m *stun.Message) []int {
+		obs := []int{1, int(m.Type.Method), int(m.Type.Class), int(m.Length)}
+		obs = append(obs, intsOf(m.TransactionID[:])...)
+		obs = append(obs, len(m.Attributes))
+		for _, a := range m.Attributes {
+			obs = append(obs, int(a.Type), len(a.Value))
+			obs = append(obs, intsOf(a.Value)...)
+		}
+		return obs
+	}
 	m := &stun.Message{Raw: append([]byte(nil), data...)}
 	var err error
-	if pan, _ := guarded(func() { err = m.Decode() }); pan {
-		return []int{2}
-	}
-	if err != nil {
-		return []int{0}
-	}
-	obs := []int{1, int(m.Type.Method), int(m.Type.Class), int(m.Length)}
-	obs = append(obs, intsOf(m.TransactionID[:])...)
-	obs = append(obs, len(m.Attributes))
-	for _, a := range m.Attributes {
-		obs = append(obs, int(a.Type), len(a.Value))
-		obs = append(obs, intsOf(a.Value)...)
-		if int(a.Length) != len(a.Value) {
-			o.fail("attr-length-field", "201 "+fHex(data))
+	pan, _ := guarded(func() { err = m.Decode() })
+	var obs []int
+	switch {
+	case pan:
+		obs = []int{2}
+	case err != nil:
+		obs = []int{0}
+	default:
+		obs = project(m)
+		for _, a := range m.Attributes {
+			if int(a.Length) != len(a.Value) {
+				o.fail("attr-length-field", "201 "+fHex(data))
+			}
 		}
 	}
-	// the same datagram decoded into one long-lived Message that has held every earlier datagram of this
-	// run: what the decoder reports is a function of the bytes alone
+	// the same datagram handed to two long-lived Messages that have held every earlier datagram of this run -
+	// accepted and refused ones alike - one through Decode(data, m), one through Write: what the decoder reports
+	// is a function of the bytes alone, and after Write Raw holds exactly this input
 	reusedDecodeMu.Lock()
-	var rerr error
-	rpan, _ := guarded(func() { rerr = stun.Decode(data, &reusedDecodeMsg) })
-	var robs []int
-	if !rpan && rerr == nil {
-		r := &reusedDecodeMsg
-		robs = []int{1, int(r.Type.Method), int(r.Type.Class), int(r.Length)}
-		robs = append(robs, intsOf(r.TransactionID[:])...)
-		robs = append(robs, len(r.Attributes))
-		for _, a := range r.Attributes {
-			robs = append(robs, int(a.Type), len(a.Value))
-			robs = append(robs, intsOf(a.Value)...)
+	bad := false
+	for k, rm := range []*stun.Message{&reusedDecodeMsg, &reusedWriteMsg} {
+		var rerr error
+		rpan, _ := guarded(func() {
+			if k == 0 {
+				rerr = stun.Decode(data, rm)
+			} else {
+				_, rerr = rm.Write(data)
+			}
+		})
+		robs := []int{0}
+		switch {
+		case rpan:
+			robs = []int{2}
+		case rerr == nil:
+			robs = project(rm)
+			if !bytes.Equal(rm.Raw, data) {
+				bad = true
+			}
+		}
+		if fmt.Sprint(robs) != fmt.Sprint(obs) {
+			bad = true
 		}
 	}
 	reusedDecodeMu.Unlock()
-	if rpan || fmt.Sprint(robs) != fmt.Sprint(obs) {
+	if bad {
 		o.fail("reused-message-decodes-differently", "201 "+fHex(data))
 	}
 	return obs
@@ -235,6 +271,8 @@ func execSpecDecode(o *out, f [][]int) []int {
 var (
 	reusedDecodeMu  sync.Mutex
 	reusedDecodeMsg stun.Message
+	reusedWriteMsg  stun.Message
+	reusedWrite101  stun.Message
 )
 
 var errCallback = errors.New("callback failed")
@@ -527,6 +565,38 @@ func runDecodeStreams(g *decodeGen, bound, nValid, nMut, nRand, nBig int) map[st
 		}
 		g.emit(b, "random")
 	}
+	// protocol constants: every attribute type of the STUN / TURN / ICE / MS-TURN registries (and their
+	// neighbours) as the first attribute, with values taken from the cookies and magic numbers of those
+	// protocols, under a right and a wrong header cookie: no type or value makes the decoder lenient
+	magic := [][]byte{{0x21, 0x12, 0xA4, 0x42}, {0x72, 0xC6, 0x4B, 0xC6}, {0x53, 0x54, 0x55, 0x4e}, {0, 0, 0, 0}, {0xff, 0xff, 0xff, 0xff}}
+	for _, base := range []int{0x0000, 0x8000, 0x4000, 0xC000} {
+		for t := base; t < base+0x60; t++ {
+			for mi, mv := range magic {
+				for _, cookie := range [][]byte{magic[0], magic[1], {0x21, 0x12, 0xA4, 0x43}} {
+					if mi >= 3 && cookie[3] != 0x42 && t%4 != 0 {
+						continue
+					}
+					b := append(header(r.pick([]int{0x0001, 0x0101, 0x0003, 0x0104}), 8, r.bytes(12)), r.tlv(t, mv, 4)...)
+					copy(b[4:8], cookie)
+					g.emit(b, "protocol-constants")
+				}
+			}
+		}
+	}
+	// a message cut in two consecutive inputs (what a stream transport may hand over): the tail is not a
+	// message, whatever came before it
+	for i := 0; i < nValid/20+50; i++ {
+		b := r.validMessage(4, 40)
+		if len(b) < 24 {
+			continue
+		}
+		k := r.pick([]int{20, 21, 24, len(b) - 4, len(b) - 1, 8 + r.intn(len(b)-8)})
+		g.emit(b[:k], "split-head")
+		g.emit(b[k:], "split-tail")
+		if r.chance(1, 3) {
+			g.emit(append(append([]byte(nil), b[k:]...), r.tlv(0x8022, r.bytes(4), 4)...), "split-tail")
+		}
+	}
 	for i := 0; i < nBig; i++ {
 		var b []byte
 		switch i % 3 {
@@ -603,6 +673,17 @@ func runC01(o *out, thorough bool, r *rng, _ []string) map[string]interface{} {
 			runtime.ReadMemStats(&ms)
 			delta := ms.TotalAlloc - before
 			o.count("alloc-measured")
+			// and CloneTo from a source that sits in a large read buffer (what it needs depends on the message)
+			big := make([]byte, len(data), 1<<20)
+			copy(big, data)
+			src, dst := &stun.Message{Raw: big}, new(stun.Message)
+			runtime.ReadMemStats(&ms)
+			b2 := ms.TotalAlloc
+			_, _ = guarded(func() { _ = src.CloneTo(dst) })
+			runtime.ReadMemStats(&ms)
+			if d2 := ms.TotalAlloc - b2; d2 > uint64(64*len(data)+8192) {
+				o.fail("alloc-volume", fmt.Sprintf("101 %s - 1,0 CloneTo from a source with a 1 MiB buffer allocated=%d", fHex(data), d2))
+			}
 			if delta > uint64(64*len(data)+8192) {
 				o.fail("alloc-volume", fmt.Sprintf("101 %s - 1,0 allocated=%d", fHex(data), delta))
 			}
